@@ -96,6 +96,14 @@ impl GarnishDataFactory<usize, SimpleNumber, char, u8, u64, DataError, SizeItera
     }
 }
 
+/// The items an iterator over a sequence yields for the given extents: from the start (not before the first item)
+/// up to, not including, the end (not beyond the last item), the same reading BasicGarnishData gives extents.
+fn within_extents<I>(items: Vec<I>, extents: &Extents<SimpleNumber>) -> Vec<I> {
+    let end = usize::from(extents.end()).min(items.len());
+    let start = usize::from(extents.start()).min(end);
+    items.into_iter().skip(start).take(end - start).collect()
+}
+
 impl<T, A> GarnishData for SimpleGarnishData<T, A>
 where
     T: SimpleDataType,
@@ -279,9 +287,9 @@ where
         }
     }
 
-    fn get_char_list_iter(&self, list_addr: Self::Size, _extents: Extents<Self::Number>) -> Result<CharListIterator, Self::Error> {
+    fn get_char_list_iter(&self, list_addr: Self::Size, extents: Extents<Self::Number>) -> Result<CharListIterator, Self::Error> {
         Ok(self.get_char_list_len(list_addr)
-            .and_then(|_len| Ok(CharListIterator::new(self.get(list_addr)?.as_char_list()?.chars().collect())))
+            .and_then(|_len| Ok(CharListIterator::new(within_extents(self.get(list_addr)?.as_char_list()?.chars().collect(), &extents))))
             .unwrap_or(CharListIterator::new(vec![])))
     }
 
@@ -299,9 +307,9 @@ where
         }
     }
 
-    fn get_byte_list_iter(&self, list_addr: Self::Size, _extents: Extents<Self::Number>) -> Result<ByteListIterator, Self::Error> {
+    fn get_byte_list_iter(&self, list_addr: Self::Size, extents: Extents<Self::Number>) -> Result<ByteListIterator, Self::Error> {
         Ok(self.get_byte_list_len(list_addr)
-            .and_then(|_len| Ok(ByteListIterator::new(self.get(list_addr)?.as_byte_list()?.clone())))
+            .and_then(|_len| Ok(ByteListIterator::new(within_extents(self.get(list_addr)?.as_byte_list()?.clone(), &extents))))
             .unwrap_or(ByteListIterator::new(vec![])))
     }
 
@@ -319,22 +327,22 @@ where
         }
     }
 
-    fn get_symbol_list_iter(&self, list_addr: Self::Size, _extents: Extents<Self::Number>) -> Result<SymbolListPartIterator, Self::Error> {
+    fn get_symbol_list_iter(&self, list_addr: Self::Size, extents: Extents<Self::Number>) -> Result<SymbolListPartIterator, Self::Error> {
         Ok(self.get_symbol_list_len(list_addr)
-            .and_then(|_len| Ok(SymbolListPartIterator::new(self.get(list_addr)?.as_symbol_list()?.iter().map(|s| SymbolListPart::Symbol(*s)).collect())))
+            .and_then(|_len| Ok(SymbolListPartIterator::new(within_extents(self.get(list_addr)?.as_symbol_list()?.iter().map(|s| SymbolListPart::Symbol(*s)).collect(), &extents))))
             .unwrap_or(SymbolListPartIterator::new(vec![])))
     }
 
-    fn get_list_item_iter(&self, list_addr: Self::Size, _extents: Extents<Self::Number>) -> Result<Self::ListItemIterator, Self::Error> {
+    fn get_list_item_iter(&self, list_addr: Self::Size, extents: Extents<Self::Number>) -> Result<Self::ListItemIterator, Self::Error> {
         match self.get_data().get(list_addr) {
-            Some(SimpleData::List(items, _)) => Ok(DataIndexIterator::new(items.clone())),
+            Some(SimpleData::List(items, _)) => Ok(DataIndexIterator::new(within_extents(items.clone(), &extents))),
             _ => Ok(DataIndexIterator::new(vec![])),
         }
     }
 
-    fn get_concatenation_iter(&self, addr: Self::Size, _extents: Extents<Self::Number>) -> Result<Self::ConcatenationItemIterator, Self::Error> {
+    fn get_concatenation_iter(&self, addr: Self::Size, extents: Extents<Self::Number>) -> Result<Self::ConcatenationItemIterator, Self::Error> {
         match self.get_data().get(addr) {
-            Some(SimpleData::Concatenation(left, right)) => Ok(DataIndexIterator::new(self.collect_concatenation_indices(*left, *right)?)),
+            Some(SimpleData::Concatenation(left, right)) => Ok(DataIndexIterator::new(within_extents(self.collect_concatenation_indices(*left, *right)?, &extents))),
             _ => Ok(DataIndexIterator::new(vec![])),
         }
     }
